@@ -96,6 +96,9 @@ def run(ctx, pool):
         for k, v in st["outcomes"].items():
             stats["outcomes"][k] = stats["outcomes"].get(k, 0) + v
         stats["max_n"] = max(stats.get("max_n", 0), st.get("max_n", 0))
+    mjobs = [(ctx.seed * 3571 + j, ctx.n(6, 120)) for j in range(16)]
+    for traces in core.parallel("harness.rec_solver", "model_job", mjobs):
+        tw.traces.extend(traces)
     res = core.validate_traces(None, ctx, tw, pool, "Trace_FluxSolver.tla", "Trace_FluxSolver_C10.cfg")
     hist = core.event_histogram(tw)
     gaveup = sum(1 for (o, nn) in replay_out if o == "raise")
@@ -112,7 +115,7 @@ def run(ctx, pool):
         "clauses": CLAUSES,
         "samples": [tw.traces[0][:5] + tw.traces[0][-2:], tw.traces[-1][:6]],
     }
-    res["required_events"] = {k: hist.get(k, 0) for k in ("Call", "Eval", "End")}
+    res["required_events"] = {k: hist.get(k, 0) for k in ("Call", "Eval", "End", "Model")}
     res["failures"] = failures
     res["trace_lookup"] = lambda v: tw.traces[v["record"]["t"]][:6] + tw.traces[v["record"]["t"]][-3:]
     return res
